@@ -65,6 +65,20 @@ NOTES = {
  "C19-r5m1/": "first a machinery failure (the process running the compiled kernels died of memory corruption); that is now a violation",
  "C19-r5m5/": "first missed (output arrays were zero on entry); C19 now hands over output arguments with stale contents",
  "C20-r5m4/": "first missed (only setupCylindricalGrid with draw rank 0); C20 now also asks setupFromFile and other draw ranks",
+ "C02-r6m3/": "first missed (exact-size buffers were only tried on layout handlers; C03 detected the same slip); C02 now walks through the layouts of a layout swapper with arrays of exactly its advertised buffer size",
+ "C05-r6m5/": "a restart slip (hyperslab of the checkpoint read): not part of what C05 states; detected by C18",
+ "C06-r6m3/": "first missed (a scenario in which a rank raised was left unjudged); a rank that raises before a collective another member has already issued is now a violation",
+ "C06-r6m5/": "first missed (no restart set-up among the scenarios); C06 now records setupFromFile with and without a plot-only rank",
+ "C08-r6m3/": "first missed (no uniform-cubic x uniform-cubic pair among the sampled 2-D spaces); such pairs are now drawn explicitly",
+ "C08-r6m5/": "first missed (the 1-D interpolant was judged through its coefficients only); C08 now evaluates it point by point, as array and in place at its interpolation points",
+ "C09-r6m5/": "first missed (the oracle took the interpolation points as the code had them, also when they had left the domain); C09 now requires them inside the domain",
+ "C13-r6m5/": "first missed (radial grids of float dtype only); C13 now also uses a radial grid of integer dtype",
+ "C14-r6m4/": "a slip in QuasiNeutralitySolver (m = 0 operator for chi = 1): what C15 states; detected by C15",
+ "C14-r6m5/": "a slip in QuasiNeutralitySolver.solveEquation (coefficient reset): what C15 states; detected by C15",
+ "C16-r6m4/": "a slip in the periodic quadrature weights (not used by the density integration of a clamped v space): what C09 states; detected by C09",
+ "C17-r6m4/": "first missed (the token field has the same extrema on every rank); minima and maxima are now judged on a ramp field",
+ "C18-r6m3/": "first missed (no constants file with an explicit CN0); added",
+ "C20-r6m3/": "first missed (too few set-up samples near the limits); C20 now includes process counts at the limit of what the grid sizes allow",
 }
 rows = []
 for d in sorted(glob.glob("/verif/seeded/*/meta.json")):
